@@ -240,7 +240,7 @@ PLANS = {
         "stages": [main_stage(60, 300, tier),
                    # field requests as the Python binding spells them (fields={...}): split results and per-call overrides
                    dict(main_stage(60, 240, tier, name="pyfields", shards=8), needs=["py", "cli"], extra=["--prop-alias", "C19", "--scale", "2"],
-                        kinds_re="^python_(split|mode_override|pretokenizer_fields)$")],
+                        kinds_re="^python_(split|mode_override|pretokenizer_fields|projection)$")],
         "require": ["splits_of_looked_up_words_compared", "words_swept_over_all_subsets", "tokenizations_compared", "tokenizations_where_only_partition_is_promised", "pyfields.py_field_split_checks"],
         "rule": "seeded stacks (system + 0-3 user dictionaries, with/without synonym ids, splits, dictionary-form references); for EVERY word "
                 "of every layer and EVERY one of the 1,024 field subsets S (exhaustive per word): get_word_info_subset(id, S.normalize()) "
